@@ -40,6 +40,9 @@ def plan(tier, seed):
     return specs
 
 
+HELD_RESULTS = []
+
+
 def cb_balance(rho, rp, tp, rd, td):
     if rp > 10 * rd:
         return rho * 2
@@ -99,6 +102,17 @@ def run_problem(res, admm, d):
     res.evaluations += 1
     rec = instrument.admm_exit_record()
     theta = np.asarray(r.theta)
+    # history: results handed out earlier stay what they were, whatever is solved afterwards
+    for old_arr, old_copy, old_d in HELD_RESULTS:
+        if old_arr.shape != old_copy.shape or not np.array_equal(old_arr, old_copy, equal_nan=True):
+            res.violation("a Theta returned by an earlier call (N=%d W=%d) changed when a later problem (N=%d W=%d) was solved" % (
+                old_d["N"], old_d["W"], N, W), old_d)
+            del HELD_RESULTS[:]
+            break
+    res.count("earlier_results_rechecked", len(HELD_RESULTS))
+    if isinstance(r.theta, np.ndarray):
+        HELD_RESULTS.append((r.theta, np.array(r.theta, copy=True), d))
+        del HELD_RESULTS[:-6]
     budget = d["budget"]
     if theta.shape != (n * (n + 1) // 2,):
         res.violation("returned theta has shape %s, expected (%d,)" % (theta.shape, n * (n + 1) // 2), d)
@@ -192,8 +206,12 @@ def run_shard(spec, res):
     from fast_ticc import admm
     instrument.install_admm_monitor()
     rng = np.random.default_rng(spec["seed"])
+    prev = None
     for i in range(spec["n"]):
         d = gen_case(rng, spec, i, spec["what"] == "unconditional")
+        if prev is not None and i % 3 == 2:
+            d["N"], d["W"] = prev         # same shape as the previous problem: shared workspaces / memo tables are reused
+        prev = (d["N"], d["W"])
         out = run_problem(res, admm, d)
         if out is not None and spec.get("xcheck"):
             objective_crosscheck(res, d, *out)
